@@ -21,7 +21,19 @@ import traceback
 
 VERIF = os.path.dirname(os.path.dirname(os.path.abspath(__file__)))
 PY = os.environ.get("FACTOSIM_PYTHON", "/venv/bin/python")
-RUN_TIMEOUT = float(os.environ.get("FACTOSIM_RUN_TIMEOUT", "120"))
+# Wall limit of ONE run (a hang guard, not a performance oracle): generous, because a loaded
+# machine stretches compile-heavy runs (C07 starts up to 24 real CLI processes per run, C08/C09
+# thorough compile programs with several hundred entities).  A property module may set
+# RUN_TIMEOUT_S = {"quick": .., "thorough": ..}.
+RUN_TIMEOUT = float(os.environ.get("FACTOSIM_RUN_TIMEOUT", "300"))
+
+
+def _run_limit(task: dict) -> float:
+    try:
+        per = getattr(prop_module(task["prop"]), "RUN_TIMEOUT_S", None) or {}
+        return float(per.get(task.get("tier", "quick"), RUN_TIMEOUT))
+    except Exception:
+        return RUN_TIMEOUT
 
 
 def prop_module(prop: str):
@@ -88,6 +100,7 @@ def worker_main() -> None:
         task = json.loads(line)
         if task.get("quit"):
             break
+        limit = _run_limit(task)
         rfd, wfd = os.pipe()
         pid = os.fork()
         if pid == 0:
@@ -95,7 +108,7 @@ def worker_main() -> None:
             os.close(rfd)
             try:
                 try:
-                    faulthandler.dump_traceback_later(RUN_TIMEOUT - 5, exit=False)
+                    faulthandler.dump_traceback_later(limit - 5, exit=False)
                     out = execute_task(task)
                 except BaseException as exc:  # harness trouble, reported apart from violations
                     out = {"id": task["id"], "result": {
@@ -110,7 +123,7 @@ def worker_main() -> None:
         # ---- parent
         os.close(wfd)
         chunks = []
-        deadline = time.monotonic() + RUN_TIMEOUT
+        deadline = time.monotonic() + limit
         timed_out = False
         while True:
             left = deadline - time.monotonic()
